@@ -180,8 +180,21 @@ def make_curve(U, P, W=None, scalar=None):
     else:
         if scalar is None:
             scalar = all(len(p) == 1 for p in P)
-        pts = [p[0] for p in P] if scalar else [np.array(list(p), dtype=object) for p in P]
+        if scalar:
+            pts = [p[0] for p in P]
+        else:
+            # equal points share one array object (as in `pts = [a, b, c, a]` for a closed curve)
+            cache = {}
+            pts = [cache.setdefault(tuple(p), np.array(list(p), dtype=object)) for p in P]
     return Curve(list(U), pts, None if W is None else list(W))
+
+
+def float_twin(U, P, W=None):
+    """the same curve with python floats: run an operation on it first so that anything the library memoises across calls
+    (keyed on numerically equal arguments) is filled by the float computation before the exact one runs"""
+    scalar = all(len(p) == 1 for p in P)
+    pts = [float(p[0]) for p in P] if scalar else [np.array([float(x) for x in p]) for p in P]
+    return Curve([float(x) for x in U], pts, None if W is None else [float(w) for w in W])
 
 
 def has_float(obj):
